@@ -712,11 +712,21 @@ def verdictDef (m : Mon) (op : Operation) (o : Obs) : Option String :=
     some s!"site=controller.id operation {idText op.id}: ids equal to those of definitions {o.eq.getD []}, tuples equal to {sameTuples m.defs op}"
   else none
 
+/-- `site=controller.init.radm`: the very first observation of a history (taken on a definition line, before
+any call) shows the controller as its constructor left it. No role of a fresh controller has an admin ROLE:
+who may grant and revoke the timelock's roles is the admin alone - the controller itself - until an accepted
+`set_role_admin` (itself an admin-only call that consumes a ready operation) says otherwise. -/
+def initBad (m : Mon) (o : Obs) : Option String :=
+  if m.prev.isNone ∧ o.radm.any Option.isSome then
+    some s!"site=controller.init.radm the freshly constructed controller shows role admins {o.radm.map showOptNat}: holders of such a role can grant and revoke a timelock role without any scheduled operation"
+  else none
+
 def checkDef (m : Mon) (t f : Nat) (args : List Nat) (p : Ref) (s : Nat) (o : Obs) : Mon × Option String :=
   match refKey m.defs p with
   | none => finDef o m (some "site=controller.parse bad def line")
   | some pid =>
-    finDef o { m with defs := m.defs ++ [⟨t, f, args, pid, s⟩] } (verdictDef m ⟨t, f, args, pid, s⟩ o)
+    finDef o { m with defs := m.defs ++ [⟨t, f, args, pid, s⟩] }
+      (firstSome (initBad m o) (verdictDef m ⟨t, f, args, pid, s⟩ o))
 
 /-- the monitor's step on parsed values -/
 def checkCore (m : Mon) (ln : Line) (o : Obs) : Mon × Option String :=
